@@ -319,6 +319,49 @@ theorem consumer_sees_relay_calls (mode : Stdio.Mode) (cap : Nat) (ops : List St
   | nil => rfl
   | cons o os ih => cases o <;> simp [calls, List.filterMap_cons, ih]
 
+/-- FROM THE SCHEDULE OF THE WORKERS TO THE BYTES THE CONSUMER READS -- any number of hosts, any schedule, any
+    stdio buffering.  `evs` = any interleaving of the relay events of all streams of all targets (index-level
+    relay); its global log `G` is the sequence of stdio calls of all workers in the order they were made.
+    `ops` = ANY run of the stdio layer below (Relay/Stdio.lean `IOp`: calls as atomic steps -- the per-call
+    atomicity assumption made explicit -- interleaved with arbitrary write(2)s of arbitrary size from either
+    FILE's buffer) whose calls are exactly `G` (FILE = 1 for out(), 2 for err()).  Then, once pdsh has ended
+    through exit():
+      (a) the consumer of FILE f has received the calls made on f concatenated in the order of `G` -- so on
+          stdout a concatenation of the workers' stdout calls, on stderr of their stderr calls;
+      (b) `G` restricted to one (target, stream) is that stream's own call sequence (`LogOk`), and
+      (c) that sequence consists of whole records `label: line` of THAT target, in order, tail last.
+    Hence pdsh's stdout, and its stderr, each read as a concatenation of whole records, every record under its
+    own host's label, per host in order.  What is NOT claimed: any order between a stdout and a stderr record, and
+    -- when both FILEs are redirected to one descriptor (2>&1) -- that records of the two FILEs do not cut into
+    each other (`Stdio.shared_descriptor_witness`); per FILE (a) still holds for the chunks of that FILE. -/
+theorem records_reach_consumer_any_schedule (labels optK rs re : Bool) (targets : List Relay.Bytes)
+    (hn : ∀ t ∈ targets, NameOk t) {sizeMeta : Nat} (hg : growthOk sizeMeta = true)
+    {a0 : Cbuf.Cbuf} (ha0 : mkIndexBuf sizeMeta = some a0) (evs : List (Key × LEv)) (ops : List Stdio.IOp)
+    (hcalls : Stdio.callSeq ops =
+      (evs.foldl (gstep indexOps ⟨labels, keepDomain optK targets, false, rs, re⟩
+        (fun i => targets.getD i [])) (ginit a0)).log.map (fun x => (x.2.stream, x.2.bytes))) (f : Nat) :
+    Stdio.delivered f (Stdio.iorun ops) ++ (Stdio.iorun ops).bufs f =
+      (((evs.foldl (gstep indexOps ⟨labels, keepDomain optK targets, false, rs, re⟩
+        (fun i => targets.getD i [])) (ginit a0)).log.filter (fun x => x.2.stream = f)).map (·.2.bytes)).flatten ∧
+    LogOk (evs.foldl (gstep indexOps ⟨labels, keepDomain optK targets, false, rs, re⟩
+      (fun i => targets.getD i [])) (ginit a0)) ∧
+    ∀ (k : Key) (script : List Relay.Bytes), k.1 < targets.length →
+      (evs.filter (fun e => e.1 = k)).map (·.2) = script.map LEv.feed ++ [LEv.finish] →
+      Spec.Dom05 (markerOf (!k.2)) script.flatten = true →
+      Spec.c06Ok (Spec.recPrefix labels optK targets (targets.getD k.1 [])) script.flatten
+        ((logOf (evs.foldl (gstep indexOps ⟨labels, keepDomain optK targets, false, rs, re⟩
+          (fun i => targets.getD i [])) (ginit a0)) k).map Em.bytes) = true := by
+  obtain ⟨h1, h2⟩ := records_own_label_any_schedule labels optK rs re targets hn hg ha0 evs
+  refine ⟨?_, h1, h2⟩
+  rw [Stdio.io_consumer_sees_calls, Stdio.callsOn_eq_callSeq, hcalls]
+  congr 1
+  generalize (evs.foldl (gstep indexOps ⟨labels, keepDomain optK targets, false, rs, re⟩
+    (fun i => targets.getD i [])) (ginit a0)).log = G
+  induction G with
+  | nil => rfl
+  | cons x xs ih =>
+    by_cases h : x.2.stream = f <;> simp [h, ih]
+
 open Stdio in
 /-- what fork() copies: in full-buffering mode, as long as the calls made since the last flush fit
     the buffer, ALL of them are still in the FILE (nothing has reached the descriptor) -/
